@@ -324,7 +324,16 @@ func genHousekeeping(p *simkit.Plan, r *simkit.Rand, tier string) {
 	}
 	n := r.Range(2, 14)
 	for i := 0; i < n; i++ {
-		switch r.Intn(4) {
+		switch r.Intn(6) {
+		case 4:
+			// An agent installation under way: the version directory exists, the
+			// executable has not been renamed into place yet.
+			p.Ops = append(p.Ops, simkit.Op{Actor: "init", Kind: "install", N: []int64{int64(r.Intn(2))}, S: []string{fmt.Sprintf("v1.%d.0", i)}})
+		case 5:
+			// A new entry whose times cannot be queried through its name (a
+			// dangling or looping symbolic link) in the caches or staging
+			// directory.
+			p.Ops = append(p.Ops, simkit.Op{Actor: "init", Kind: "dangling", N: []int64{int64(r.Intn(2)), int64(r.Intn(2))}, S: []string{fmt.Sprintf("odd%d", i)}})
 		case 0:
 			p.Ops = append(p.Ops, simkit.Op{Actor: "init", Kind: "agent", N: []int64{ages(30 * day), int64(r.Intn(3))}, S: []string{fmt.Sprintf("v0.%d.0", i)}})
 		case 1:
@@ -372,6 +381,8 @@ func execHousekeeping(t *testing.T, plan *simkit.Plan) *simkit.Result {
 			kind      string
 			threshold time.Duration
 			access    bool
+			lstat     bool // the entry's own times decide (it cannot be followed)
+			keep      bool // housekeeping has no business with it at any age
 			stampTime time.Time
 		}
 		var items []*item
@@ -406,6 +417,28 @@ func execHousekeeping(t *testing.T, plan *simkit.Plan) *simkit.Result {
 				os.WriteFile(filepath.Join(dir, "ab", "staged"), []byte("staged"), 0o600)
 				tm := stamp(dir, op.Int(0), op.Int(1))
 				items = append(items, &item{path: dir, stamped: dir, kind: "staging", threshold: 7 * day, stampTime: tm})
+			case "install":
+				dir := filepath.Join(dataDir, "agents", op.Str(0))
+				os.MkdirAll(dir, 0o700)
+				if op.Int(0) == 1 {
+					os.WriteFile(filepath.Join(dir, ".mutagen-temporary-agent-upload"), []byte("partial"), 0o600)
+				}
+				items = append(items, &item{path: dir, stamped: dir, kind: "installing-agent", threshold: 30 * day, stampTime: now, keep: true})
+				s.Count("probe.installations_under_way", 1)
+			case "dangling":
+				parent := filepath.Join(dataDir, "caches")
+				if op.Int(0) == 1 {
+					parent = filepath.Join(dataDir, "staging")
+				}
+				os.MkdirAll(parent, 0o700)
+				link := filepath.Join(parent, op.Str(0))
+				if op.Int(1) == 0 {
+					os.Symlink(filepath.Join(outside, "no-such-target"), link)
+				} else {
+					os.Symlink(op.Str(0), link) // points at itself
+				}
+				items = append(items, &item{path: link, stamped: link, kind: "unqueryable-entry", threshold: 7 * day, stampTime: now, lstat: true, keep: true})
+				s.Count("probe.unqueryable_entries", 1)
 			case "linkout":
 				// Symbolic links inside the data directory pointing outside.
 				var link string
@@ -463,7 +496,11 @@ func execHousekeeping(t *testing.T, plan *simkit.Plan) *simkit.Result {
 				// Access times may be refreshed by the kernel when read;
 				// use the current stamp of what decides.
 				ref := it.stampTime
-				if st, err := os.Stat(it.stamped); err == nil {
+				if it.lstat {
+					if st, err := os.Lstat(it.stamped); err == nil {
+						ref = st.ModTime()
+					}
+				} else if st, err := os.Stat(it.stamped); err == nil {
 					if it.access {
 						if sys, ok := st.Sys().(*syscall.Stat_t); ok {
 							ref = time.Unix(sys.Atim.Sec, sys.Atim.Nsec)
@@ -474,12 +511,12 @@ func execHousekeeping(t *testing.T, plan *simkit.Plan) *simkit.Result {
 				}
 				age := callTime.Sub(ref)
 				if !exists && it.kind != "gone" {
-					if age <= it.threshold {
+					if age <= it.threshold || it.keep {
 						s.Violate("C43", "recent-artifact-removed", it.kind, "%s %q was removed at age %v, the threshold is %v", it.kind, filepath.Base(it.path), callTime.Sub(it.stampTime), it.threshold)
 					}
 					s.Count("probe.removed_"+it.kind, 1)
 					it.kind = "gone"
-				} else if exists && age > it.threshold {
+				} else if exists && age > it.threshold && !it.keep {
 					s.Violate("C43", "stale-artifact-kept", it.kind, "%s %q is %v old (threshold %v) and was not removed", it.kind, filepath.Base(it.path), age, it.threshold)
 				} else if exists {
 					s.Count("probe.kept", 1)
